@@ -24,6 +24,8 @@
                           Respondent.parseHead   : HTTPExc UnknownProtocol, PrematureClosure / parseMessage
      dictify_site         Parsent.dictify        : ValueErr (incl. UnicodeDecodeError), RuntimeErr (RecursionError) / json.loads / except clause of dictify
      sse_site             EventSource.parse      : HTTPExc LineTooLong / event line over 65536 bytes / parseMessage   (UTF-8 decoding uses errors='replace': no raise)
+     respond_site         Steward.respond        : RuntimeErr (RecursionError) / json.dumps of a reply nested too deep / except RecursionError -> data null
+                          CustomResponder.build  : UnicodeErr / .encode('utf-8') of the dumped reply; cannot happen: ensure_ascii escapes every non-ASCII character, lone surrogates included
      redirect_site        Client.redirect        : HTTPExc InvalidURL / no Location, urlsplit ValueErr, bad port, unresolvable host / serviceResponse -> errored response
 *)
 From Hio Require Import Base.Prelude Model.HttpReqUrl.
@@ -195,7 +197,7 @@ Definition url_site (o : url_oracle) (u : ustr) : res (split * option N) :=
 
 (* parseRequestLine + the version and url handling of Requestant.parseHead:
    (method, version is 1.0) *)
-Definition request_line (o : url_oracle) (l : bytes) : res (ustr * bool) :=
+Definition request_line (o : url_oracle) (l : bytes) : res (ustr * bool * split) :=
   match l with
   | [] => Exc HTTPExc
   | _ =>
@@ -206,10 +208,12 @@ Definition request_line (o : url_oracle) (l : bytes) : res (ustr * bool) :=
     if negb (starts_with (str "HTTP/") v) then Exc HTTPExc
     else if negb (existsb (ustr_eqb m) METHODS) then Exc HTTPExc
     else if negb (starts_with (str "HTTP/1.") v) then Exc HTTPExc
-    else bind (url_site o u) (fun _ => Ok (m, starts_with (str "HTTP/1.0") v))
+    else bind (url_site o u) (fun sp => Ok (m, starts_with (str "HTTP/1.0") v, fst sp))
   end.
 
-Record rinfo := { ri_method : ustr; ri_v10 : bool; ri_persist : bool; ri_json : bool }.
+Record rinfo := { ri_method : ustr; ri_v10 : bool; ri_persist : bool; ri_json : bool;
+                  ri_ctype : bool;            (* a non-empty Content-Type was given *)
+                  ri_url : split; ri_hdrs : hdrs }.
 
 Definition req_length (h : hdrs) : option N :=
   if is_chunked h then None
@@ -227,7 +231,7 @@ Definition req_persist (v10 : bool) (h : hdrs) : bool :=
 
 Inductive pst :=
 | PLine
-| PHead (m : ustr) (v10 : bool) (h : hdrs)
+| PHead (m : ustr) (v10 : bool) (u : split) (h : hdrs)
 | PLen (ri : rinfo) (n : N)
 | PChunk (ri : rinfo) (c : cst) (body : bytes).
 
@@ -250,17 +254,19 @@ Fixpoint req_run (fuel : nat) (o : url_oracle) (s : pst) (b : bytes) : pres :=
       | Got l rest =>
         match request_line o l with
         | Exc k => PFail k
-        | Ok (m, v10) => req_run fuel' o (PHead m v10 []) rest
+        | Ok (m, v10, u) => req_run fuel' o (PHead m v10 u []) rest
         end
       end
-    | PHead m v10 h =>
+    | PHead m v10 u h =>
       match leader_step h b with
       | Need => PNeed s b
       | Fail k _ => PFail k
-      | Got (inl h') rest => req_run fuel' o (PHead m v10 h') rest
+      | Got (inl h') rest => req_run fuel' o (PHead m v10 u h') rest
       | Got (inr h') rest =>
         let ri := {| ri_method := m; ri_v10 := v10; ri_persist := req_persist v10 h';
-                     ri_json := is_json h' |} in
+                     ri_json := is_json h';
+                     ri_ctype := negb (match hget_str h' "content-type" with [] => true | _ => false end);
+                     ri_url := u; ri_hdrs := h' |} in
         if is_chunked h' then req_run fuel' o (PChunk ri CSize []) rest
         else match req_length h' with
              | Some n => req_run fuel' o (PLen ri n) rest
@@ -297,17 +303,123 @@ Definition dictify_site (needed : bool) (j : jres) : res unit :=
     end
   else Ok tt.
 
-(* the external json.loads as a finite table body -> outcome (default JOk) *)
-Definition jmap := list (bytes * jres).
-Fixpoint json_of (js : jmap) (body : bytes) : jres :=
-  match js with
-  | [] => JOk
-  | (b, j) :: js' => if bytes_eqb b body then j else json_of js' body
+(* ---------- the reply of the bare server (Steward.respond + CustomResponder.build) ----------
+   The request is echoed as JSON.  What json.loads made of the body is external and comes as a
+   value [jv]; strings are code point lists and may hold lone surrogates (json.loads accepts
+   the escape \ud83d), NUL and non-BMP characters. *)
+Inductive jv :=
+| JNull | JBool (b : bool)
+| JNum (repr : ustr)                       (* json.dumps of the int / float, external, ASCII *)
+| JStr (s : ustr)
+| JArr (l : list jv)
+| JObj (l : list (ustr * jv)).
+
+Definition hexl (v : N) : N := if v <? 10 then 48 + v else 87 + v.   (* lower case *)
+Definition uesc (c : N) : ustr :=
+  [92; 117; hexl ((c / 4096) mod 16); hexl ((c / 256) mod 16); hexl ((c / 16) mod 16); hexl (c mod 16)].
+
+(* json.encoder: ESCAPE_ASCII (ensure_ascii=True) / ESCAPE (False) on one character *)
+Definition jesc1 (ascii : bool) (c : N) : ustr :=
+  if N.eqb c 34 then [92; 34] else if N.eqb c 92 then [92; 92]
+  else if N.eqb c 10 then [92; 110] else if N.eqb c 13 then [92; 114] else if N.eqb c 9 then [92; 116]
+  else if N.eqb c 8 then [92; 98] else if N.eqb c 12 then [92; 102]
+  else if c <? 32 then uesc c
+  else if ascii && (126 <? c) then
+    (if c <? 65536 then uesc c
+     else uesc (55296 + ((c - 65536) / 1024) mod 1024) ++ uesc (56320 + (c - 65536) mod 1024))
+  else [c].
+Definition jstr (ascii : bool) (s : ustr) : ustr := 34 :: flat_map (jesc1 ascii) s ++ [34].
+
+Fixpoint sepcat (l : list ustr) : ustr :=
+  match l with
+  | [] => []
+  | [x] => x
+  | x :: r => x ++ 44 :: sepcat r
   end.
+
+Definition ascii_only (s : ustr) : ustr := map (fun c => if c <? 128 then c else 63) s.
+
+(* json.dumps(v, separators=(',', ':'), ensure_ascii=ascii) *)
+Fixpoint dumps (ascii : bool) (v : jv) : ustr :=
+  match v with
+  | JNull => str "null"
+  | JBool true => str "true"
+  | JBool false => str "false"
+  | JNum r => ascii_only r
+  | JStr s => jstr ascii s
+  | JArr l => 91 :: sepcat (map (dumps ascii) l) ++ [93]
+  | JObj l => 123 :: sepcat (map (fun kv => jstr ascii (fst kv) ++ 58 :: dumps ascii (snd kv)) l) ++ [125]
+  end.
+
+(* str.encode('utf-8'), strict: a surrogate raises UnicodeEncodeError *)
+Definition is_surrogate (c : N) : bool := (55296 <=? c) && (c <=? 57343).
+Definition encode_strict (s : ustr) : res bytes :=
+  if existsb is_surrogate s then Exc UnicodeErr else Ok (utf8_enc s).
+
+(* httping.updateQargsQuery(dict(), query) -> the dict *)
+Fixpoint dset (d : list (ustr * ustr)) (k v : ustr) : list (ustr * ustr) :=
+  match d with
+  | [] => [(k, v)]
+  | (k', v') :: d' => if ustr_eqb k' k then (k', v) :: d' else (k', v') :: dset d' k v
+  end.
+Fixpoint split_at (c : N) (s : ustr) (cur : ustr) : list ustr :=
+  match s with
+  | [] => [frev cur]
+  | x :: r => if N.eqb x c then frev cur :: split_at c r [] else split_at c r (x :: cur)
+  end.
+Definition qargs_of (query : ustr) : list (ustr * ustr) :=
+  let parts := if mem_n 59 query then split_at 59 query []
+               else if mem_n 38 query then split_at 38 query [] else [query] in
+  fold_left (fun d part =>
+               match part with
+               | [] => d
+               | _ => let '(k, f, v) := partition1 61 part in
+                      if f then dset d (unquote_plus k) (unquote_plus v)
+                      else dset d (unquote_plus part) (str "true")
+               end) parts [].
+
+(* the dict Steward.respond builds *)
+Definition echo_jv (ri : rinfo) (body : bytes) (data : jv) : jv :=
+  JObj [ (str "version", JStr (if ri_v10 ri then str "HTTP/1.0" else str "HTTP/1.1"));
+         (str "method", JStr (ri_method ri));
+         (str "path", JStr (unquote (u_path (ri_url ri))));
+         (str "qargs", JObj (map (fun kv => (fst kv, JStr (snd kv))) (qargs_of (u_query (ri_url ri)))));
+         (str "fragment", JStr (u_fragment (ri_url ri)));
+         (str "headers", JArr (map (fun kv => JArr [JStr (fst kv); JStr (snd kv)]) (ri_hdrs ri)));
+         (str "body", JStr (utf8_dec body));                 (* decode('utf-8', errors='replace') *)
+         (str "data", data) ].
+
+(* CustomResponder.build: json.dumps (RecursionError when the value is nested too deep for the
+   interpreter: external, [rec_hit]) then .encode('utf-8').  [ascii] is json.dumps' ensure_ascii:
+   True in the code. *)
+Definition build_reply (ascii rec_hit : bool) (v : jv) : res bytes :=
+  if rec_hit then Exc RuntimeErr else encode_strict (dumps ascii v).
+
+(* Steward.respond: `except RecursionError` -> reply again with data null *)
+Definition respond_site (rec_hit : bool) (ri : rinfo) (body : bytes) (data : jv) : res bytes :=
+  match build_reply true rec_hit (echo_jv ri body data) with
+  | Exc RuntimeErr => build_reply true false (echo_jv ri body JNull)
+  | r => r
+  end.
+
+(* the external json.loads as a finite table body -> outcome (default: parses to null) *)
+Record jent := { je_res : jres;
+                 je_val : jv;          (* the parsed value when je_res = JOk *)
+                 je_deep : bool;       (* parsed, but too deeply nested to be transcribed: reply not compared *)
+                 je_rec : bool }.      (* json.dumps of the reply hit the recursion limit *)
+Definition jent0 : jent := {| je_res := JOk; je_val := JNull; je_deep := false; je_rec := false |}.
+Definition jmap := list (bytes * jent).
+Fixpoint jent_of (js : jmap) (body : bytes) : jent :=
+  match js with
+  | [] => jent0
+  | (b, j) :: js' => if bytes_eqb b body then j else jent_of js' body
+  end.
+Definition json_of (js : jmap) (body : bytes) : jres := je_res (jent_of js body).
 
 Inductive skind := Wsgi | Bare.
 
-Record served := { sv_method : ustr; sv_v10 : bool; sv_body : bytes }.
+Record served := { sv_method : ustr; sv_v10 : bool; sv_body : bytes;
+                   sv_reply : option bytes }.   (* bare: body of the reply, when modelled *)
 
 Record conn := { c_buf : bytes;
                  c_pst : option pst;        (* None: requestant.parser is None *)
@@ -315,15 +427,17 @@ Record conn := { c_buf : bytes;
                  c_closed : bool;
                  c_closing : bool;          (* wsgi: answered, not persistent, waiting for txbs to drain *)
                  c_served : list served;
+                 c_jsoned : bool;           (* requestant.jsoned: only reassigned when a Content-Type is given *)
+                 c_data : jent;             (* requestant.data (jent0 = None): only reassigned by dictify when jsoned *)
                  c_json : jmap }.           (* what json.loads does on each body (bare) *)
 
 Definition conn0 (js : jmap) : conn :=
   {| c_buf := []; c_pst := Some PLine; c_cutoff := false; c_closed := false;
-     c_closing := false; c_served := []; c_json := js |}.
+     c_closing := false; c_served := []; c_jsoned := false; c_data := jent0; c_json := js |}.
 
 Definition close (c : conn) : conn :=
   {| c_buf := c_buf c; c_pst := None; c_cutoff := c_cutoff c; c_closed := true;
-     c_closing := false; c_served := c_served c; c_json := c_json c |}.
+     c_closing := false; c_served := c_served c; c_jsoned := c_jsoned c; c_data := c_data c; c_json := c_json c |}.
 
 (* the bytes of one round: data then optionally end of stream *)
 Record rnd := { r_data : bytes; r_eof : bool }.
@@ -338,7 +452,7 @@ Definition server_round (kind : skind) (o : url_oracle) (c : conn) (r : rnd) : r
   let buf := c_buf c ++ r_data r in
   let cut := c_cutoff c || r_eof r in
   let c1 := {| c_buf := buf; c_pst := c_pst c; c_cutoff := cut; c_closed := false;
-               c_closing := c_closing c; c_served := c_served c; c_json := c_json c |} in
+               c_closing := c_closing c; c_served := c_served c; c_jsoned := c_jsoned c; c_data := c_data c; c_json := c_json c |} in
   match c_pst c with
   | None =>
     (* nothing to parse; serviceReps: a drained non persistent connection is closed *)
@@ -348,26 +462,37 @@ Definition server_round (kind : skind) (o : url_oracle) (c : conn) (r : rnd) : r
     | POut => Exc OtherErr
     | PNeed s' b' =>
       Ok {| c_buf := b'; c_pst := Some s'; c_cutoff := cut; c_closed := false;
-            c_closing := false; c_served := c_served c; c_json := c_json c |}
+            c_closing := false; c_served := c_served c; c_jsoned := c_jsoned c; c_data := c_data c; c_json := c_json c |}
     | PFail HTTPExc => Ok (close c1)          (* parseMessage: errored; the server closes the connection *)
     | PFail k => Exc k                        (* nothing catches it *)
     | PDone ri body b' =>
-      let sv := {| sv_method := ri_method ri; sv_v10 := ri_v10 ri; sv_body := body |} in
+      let sv := {| sv_method := ri_method ri; sv_v10 := ri_v10 ri; sv_body := body; sv_reply := None |} in
       match kind with
       | Wsgi =>
         (* responder runs the app and ends in the same round; persistent: new parser;
            else close once the response left (next round) *)
         Ok {| c_buf := b'; c_pst := if ri_persist ri then Some PLine else None;
               c_cutoff := cut; c_closed := false; c_closing := negb (ri_persist ri);
-              c_served := c_served c ++ [sv]; c_json := c_json c |}
+              c_served := c_served c ++ [sv]; c_jsoned := c_jsoned c; c_data := c_data c;
+              c_json := c_json c |}
       | Bare =>
-        match dictify_site (ri_json ri) (json_of (c_json c) body) with
+        let jsoned := if ri_ctype ri then ri_json ri else c_jsoned c in
+        let ent := jent_of (c_json c) body in
+        match dictify_site jsoned (je_res ent) with
         | Exc k => Exc k
         | Ok _ =>
-          let c2 := {| c_buf := b'; c_pst := if ri_persist ri then Some PLine else None;
-                       c_cutoff := cut; c_closed := false; c_closing := false;
-                       c_served := c_served c ++ [sv]; c_json := c_json c |} in
-          if ri_persist ri then Ok c2 else Ok (close c2)
+          let data := if jsoned then match je_res ent with JOk => ent | _ => jent0 end else c_data c in
+          match respond_site (je_rec data) ri body (je_val data) with
+          | Exc k => Exc k
+          | Ok reply =>
+            let sv' := {| sv_method := ri_method ri; sv_v10 := ri_v10 ri; sv_body := body;
+                          sv_reply := if je_deep data then None else Some reply |} in
+            let c2 := {| c_buf := b'; c_pst := if ri_persist ri then Some PLine else None;
+                         c_cutoff := cut; c_closed := false; c_closing := false;
+                         c_served := c_served c ++ [sv']; c_jsoned := jsoned; c_data := data;
+                         c_json := c_json c |} in
+            if ri_persist ri then Ok c2 else Ok (close c2)
+          end
         end
       end
     end
@@ -701,7 +826,7 @@ Inductive side :=
 | Server (kind : skind)
 | Client (m : cmethod) (nreq : N) (redirectable dictable : bool).
 
-Definition obs_served := (ustr * bool * bytes)%type.
+Definition obs_served := (ustr * bool * bytes * option bytes)%type.
 Definition obs_resp := (N * bool * bytes * N)%type.
 
 Record case := { x_side : side;
@@ -715,8 +840,12 @@ Record case := { x_side : side;
                  x_errored : bool }.                 (* client: respondent.errored at the end is not compared; kept for the oracle *)
 
 Definition served_eqb (a : served) (b : obs_served) : bool :=
-  let '(m, v10, body) := b in
-  ustr_eqb (sv_method a) m && Bool.eqb (sv_v10 a) v10 && bytes_eqb (sv_body a) body.
+  let '(m, v10, body, reply) := b in
+  ustr_eqb (sv_method a) m && Bool.eqb (sv_v10 a) v10 && bytes_eqb (sv_body a) body
+  && match sv_reply a, reply with
+     | Some x, Some y => bytes_eqb x y
+     | _, _ => true          (* wsgi, or a value too deep to transcribe *)
+     end.
 
 Definition resp_eqb (a : response) (b : obs_resp) : bool :=
   let '(st, er, body, nr) := b in
